@@ -1,11 +1,51 @@
-PROP = {
-    "kani_groups": ["hk_batcher"],
-    "smt": [],
-    "technique": "bounded model checking (Kani/CBMC) of one-step harnesses over the real emit_batcher code",
-    "functions": [],
-    "bounds": "",
-    "outside": "",
-    "stubs": [],
-    "assumptions": [],
-    "timeout": {"quick": 900, "thorough": 3600},
-}
+PROP = {'kani_groups': ['hk_batcher'],
+ 'smt': [],
+ 'technique': 'bounded model checking (Kani/CBMC) of the receiver-side kernels and of one full receiver-loop '
+              'iteration (de-asynced exec) from an arbitrary state with symbolic processor outcomes and a symbolic '
+              'panic plan; liveness over many iterations follows by the written induction (every iteration '
+              'terminates and re-establishes an arbitrary valid state)',
+ 'functions': ['Receiver::exec (one loop iteration incl. the whole retry loop and the shutdown return), '
+               'Receiver::drop, Sender::drop',
+               'Watchers::{push_*, notify_*}, Retry::{new, reset, next}, Delay::{new, reset, next}, '
+               'CatchUnwind::poll, Sender::{when_empty, when_flushed}'],
+ 'bounds': 'receiver iteration: 0..=2 (thorough 3) items, 1 (thorough 0..2) watchers of each kind, retry budget 0/1 '
+           '(thorough 2) instead of 10, outcomes {Ok, Err no-retry, Err retry(any remainder)} per attempt, panics at '
+           'any guarded call; Retry: any budget, 5 calls after reset; Delay: one step from any state with '
+           'whole-millisecond current/step/max < 256 s, plus the two configured delays for 14 steps; Watchers: <= 3 '
+           'of each kind, every panic plan',
+ 'outside': 'CANNOT BE ENCODED (Kani executes one thread, no OS): batcher/src/tokio.rs and web.rs entirely; the '
+            'blocking wrappers of batcher/src/sync.rs (Trigger/condvar wait_timeout, Instant, thread spawn/join, its '
+            'block_on); wall-clock time; real unwinding; the std mutex itself (assumed). The multi-step composition '
+            '(any number of senders, any interleaving, histories of any length) is a WRITTEN induction over the '
+            'solver-checked one-step obligations (harness/hk_batcher/src/lib.rs), not a solver result; a bounded '
+            'multi-step schedule harness did not fit CBMC (20 min symex, no verdict). Also outside — the whole last '
+            'sentence of the property: blocking flush/send returning within their timeout from any calling context '
+            '(plain thread, tokio multi-thread worker, tokio current-thread runtime) incl. the panic the property '
+            'text mentions for blocking calls inside a tokio runtime: tokio and OS time cannot be encoded; joining '
+            'of worker threads in the file/OTLP emitters; processor futures that never complete; a processor that '
+            'panics after partially mutating its own state',
+ 'stubs': ['batcher:mutex — std::sync::Mutex in batcher/src/lib.rs -> single-owner cell with the same lock() API, an '
+           'acquisition counter and a hook called before every acquisition; asserts the lock is never re-acquired '
+           "while held. Mutual exclusion itself is std's contract and is ASSUMED",
+           'batcher:catch-unwind — std::panic::catch_unwind -> panic plan: the i-th guarded call either runs its '
+           'closure and returns Ok, or (plan bit i) does not run it, drops it and returns Err; partial effects of a '
+           'closure that panics half-way are not modelled',
+           'batcher:exec-fn/exec-await-* — Receiver::exec de-asynced in the scratch tree only (async fn -> fn, each '
+           '.await -> poll once with a no-op waker, the future must be Ready); preserves the program order of the '
+           'single receiver task for processors/waits whose futures complete; never-completing futures are outside',
+           'batcher:capacity-pub + #[kani::stub(Capacity::next -> constant 0)] in the receiver harnesses only: the '
+           'result is only a hint for Channel::with_capacity (ignored by the harness queue); the real Capacity::next '
+           'is decided for every state by c06_q_k_capacity',
+           "receiver harnesses cut the run by assume(false) at the receiver's second acquisition of the state lock, "
+           'after the post-conditions of the iteration were asserted there',
+           'inject/batcher.rs: read-only snapshot, constructor of a (Sender, Receiver) pair from an explicit state '
+           '(through `bounded`), pub wrappers around send_or_wait / Watchers / Batch::new / Retry / Delay / Capacity '
+           '/ CatchUnwind — no logic'],
+ 'assumptions': ['pre-state of every one-step harness: 1 <= capacity <= 3, pending <= capacity (representation '
+                 'invariant I0, shown preserved by every sender step); everything else arbitrary',
+                 'Channel instantiation: ArrQ<4>, a fixed-array FIFO of u8 implementing the public Channel trait '
+                 '(Vec::push with symbolic length costs 9 M SAT variables); other Channel impls are outside',
+                 'std::sync::Mutex provides mutual exclusion (assumed, replaced)',
+                 'processor and wait futures are ready when polled (sync::spawn always passes ready futures)'],
+ 'timeout': {'quick': 900, 'thorough': 3600},
+ 'slow_first': ['_r_exec']}
